@@ -7,6 +7,7 @@ func Gen(t *rapid.T) *Case {
 	if c.PanicHandler {
 		c.PHDelayUs = rapid.SampledFrom([]int{0, 0, 100, 1000, 3000}).Draw(t, "phdelay")
 	}
+	c.CancelLast = rapid.IntRange(0, 2).Draw(t, "cancelLast") == 0
 	c.Obs = rapid.IntRange(0, 2).Draw(t, "obs") == 0
 	c.Hooks = rapid.IntRange(0, 3).Draw(t, "hooks") == 0
 	c.Store = rapid.IntRange(0, 3).Draw(t, "store") == 0
